@@ -1,11 +1,11 @@
 /-
 C03 — Parameter ensembles decompose into individual simulations.
 
-Statements are about `AbtemVerif.Distributions.*` (Model/Distributions.lean) and hold for every parameter type `V`,
+Statements are about `AbtemVerif.ParamEnsemble.*` (Model/ParamEnsemble.lean) and hold for every parameter type `V`,
 weight type `W`, result type `R`, every kernel `f : List V → R` (the pointwise formula evaluated by numpy
 broadcasting — CTF phase, aperture, envelopes, tilt), every argument list mixing scalars and distributions.
 -/
-import AbtemVerif.Model.Distributions
+import AbtemVerif.Model.ParamEnsemble
 import AbtemVerif.Lib.Partition
 import AbtemVerif.Props.C19
 import Mathlib.Tactic.Ring
@@ -13,7 +13,7 @@ import Mathlib.Tactic.Linarith
 import Mathlib.Tactic.FieldSimp
 
 namespace AbtemVerif.Props.C03
-open AbtemVerif.Distributions AbtemVerif.Partition AbtemVerif
+open AbtemVerif.ParamEnsemble AbtemVerif.Partition AbtemVerif
 variable {V W R : Type}
 
 /-- the scalar run for ensemble member `idx`: every distribution replaced by the value that member sees -/
